@@ -80,3 +80,15 @@ OBLIGATIONS.append({"name": "c15.u.hex2bin.strict", "props": ["C15", "C12"], "ki
      "functions": ["sodium_hex2bin"], "assumes": ["errno modelled as a plain global"],
      "what": "sodium_hex2bin, strict mode (no ignore set, no end pointer), EVERY text: success implies an even number of hex digits only, bin_len = hex_len/2, every byte = value of its digit pair (constant-time digit classification proved equal to the character ranges)",
      "bound": "values: text <= 8192 bytes, capacity <= 4096; every loop iteration covered by the invariant"})
+
+OBLIGATIONS.append({"name": "c15.u.base642bin.strict", "props": ["C15", "C12"], "kind": "U", "tier": "quick", "src": "harness/codecs_du.c", "include": ["contracts/codecs_u.h"], "entry": "hu_base642bin",
+     "mode": "dfcc", "probe": False, "min_props": 30, "solver": "kissat", "timeout": 1500, "cbmc": ["--unwind", "24", "--object-bits", "12"],
+     "dfcc": {"enforce": ["sodium_base642bin/sodium_base642bin_strict_spec"], "replace": ["strchr"],
+              "loopspec": {"sodium_base642bin": [
+                  {"id": 0, "dec": "b64_len - b64_pos", "assigns": "b64_pos,bin_pos,ret,c,d,acc,acc_len,v_errno,__CPROVER_object_upto(bin,bin_maxlen)", "inv": 'b64_pos <= b64_len && bin_pos <= bin_maxlen && ret == 0 && acc_len <= 6 && (acc_len & 1) == 0 && (is_urlsafe != 0) == ((variant & 4) != 0) && (acc_len == 0 ==> (bin_pos % 3 == 0 && b64_pos == 4 * (bin_pos / 3))) && (acc_len == 6 ==> (bin_pos % 3 == 0 && b64_pos == 4 * (bin_pos / 3) + 1)) && (acc_len == 4 ==> (bin_pos % 3 == 1 && b64_pos == 4 * (bin_pos / 3) + 2)) && (acc_len == 2 ==> (bin_pos % 3 == 2 && b64_pos == 4 * (bin_pos / 3) + 3)) && (g_k < b64_pos ==> ((((unsigned char)(b64[g_k])) >= 65 && ((unsigned char)(b64[g_k])) <= 90) || (((unsigned char)(b64[g_k])) >= 97 && ((unsigned char)(b64[g_k])) <= 122) || (((unsigned char)(b64[g_k])) >= 48 && ((unsigned char)(b64[g_k])) <= 57) || ((unsigned char)(b64[g_k])) == ((is_urlsafe != 0) ? 45 : 43) || ((unsigned char)(b64[g_k])) == ((is_urlsafe != 0) ? 95 : 47))) && (acc_len != 0 ==> ((acc & ((1u << acc_len) - 1u)) == (((unsigned int)(((unsigned char)(b64[b64_pos - 1])) >= 65 && ((unsigned char)(b64[b64_pos - 1])) <= 90 ? ((unsigned char)(b64[b64_pos - 1])) - 65 : (((unsigned char)(b64[b64_pos - 1])) >= 97 && ((unsigned char)(b64[b64_pos - 1])) <= 122 ? ((unsigned char)(b64[b64_pos - 1])) - 71 : (((unsigned char)(b64[b64_pos - 1])) >= 48 && ((unsigned char)(b64[b64_pos - 1])) <= 57 ? ((unsigned char)(b64[b64_pos - 1])) + 4 : (((unsigned char)(b64[b64_pos - 1])) == ((is_urlsafe != 0) ? 45 : 43) ? 62 : 63))))) & ((1u << acc_len) - 1u)))) && (g_m < bin_pos ==> bin[g_m] == ((g_m % 3 == 0) ? (unsigned char)((((unsigned int)(((unsigned char)(b64[4 * (g_m / 3) + 0])) >= 65 && ((unsigned char)(b64[4 * (g_m / 3) + 0])) <= 90 ? ((unsigned char)(b64[4 * (g_m / 3) + 0])) - 65 : (((unsigned char)(b64[4 * (g_m / 3) + 0])) >= 97 && ((unsigned char)(b64[4 * (g_m / 3) + 0])) <= 122 ? ((unsigned char)(b64[4 * (g_m / 3) + 0])) - 71 : (((unsigned char)(b64[4 * (g_m / 3) + 0])) >= 48 && ((unsigned char)(b64[4 * (g_m / 3) + 0])) <= 57 ? ((unsigned char)(b64[4 * (g_m / 3) + 0])) + 4 : (((unsigned char)(b64[4 * (g_m / 3) + 0])) == ((is_urlsafe != 0) ? 45 : 43) ? 62 : 63))))) << 2) | (((unsigned int)(((unsigned char)(b64[4 * (g_m / 3) + 1])) >= 65 && ((unsigned char)(b64[4 * (g_m / 3) + 1])) <= 90 ? ((unsigned char)(b64[4 * (g_m / 3) + 1])) - 65 : (((unsigned char)(b64[4 * (g_m / 3) + 1])) >= 97 && ((unsigned char)(b64[4 * (g_m / 3) + 1])) <= 122 ? ((unsigned char)(b64[4 * (g_m / 3) + 1])) - 71 : (((unsigned char)(b64[4 * (g_m / 3) + 1])) >= 48 && ((unsigned char)(b64[4 * (g_m / 3) + 1])) <= 57 ? ((unsigned char)(b64[4 * (g_m / 3) + 1])) + 4 : (((unsigned char)(b64[4 * (g_m / 3) + 1])) == ((is_urlsafe != 0) ? 45 : 43) ? 62 : 63))))) >> 4)) : ((g_m % 3 == 1) ? (unsigned char)(((((unsigned int)(((unsigned char)(b64[4 * (g_m / 3) + 1])) >= 65 && ((unsigned char)(b64[4 * (g_m / 3) + 1])) <= 90 ? ((unsigned char)(b64[4 * (g_m / 3) + 1])) - 65 : (((unsigned char)(b64[4 * (g_m / 3) + 1])) >= 97 && ((unsigned char)(b64[4 * (g_m / 3) + 1])) <= 122 ? ((unsigned char)(b64[4 * (g_m / 3) + 1])) - 71 : (((unsigned char)(b64[4 * (g_m / 3) + 1])) >= 48 && ((unsigned char)(b64[4 * (g_m / 3) + 1])) <= 57 ? ((unsigned char)(b64[4 * (g_m / 3) + 1])) + 4 : (((unsigned char)(b64[4 * (g_m / 3) + 1])) == ((is_urlsafe != 0) ? 45 : 43) ? 62 : 63))))) & 15) << 4) | (((unsigned int)(((unsigned char)(b64[4 * (g_m / 3) + 2])) >= 65 && ((unsigned char)(b64[4 * (g_m / 3) + 2])) <= 90 ? ((unsigned char)(b64[4 * (g_m / 3) + 2])) - 65 : (((unsigned char)(b64[4 * (g_m / 3) + 2])) >= 97 && ((unsigned char)(b64[4 * (g_m / 3) + 2])) <= 122 ? ((unsigned char)(b64[4 * (g_m / 3) + 2])) - 71 : (((unsigned char)(b64[4 * (g_m / 3) + 2])) >= 48 && ((unsigned char)(b64[4 * (g_m / 3) + 2])) <= 57 ? ((unsigned char)(b64[4 * (g_m / 3) + 2])) + 4 : (((unsigned char)(b64[4 * (g_m / 3) + 2])) == ((is_urlsafe != 0) ? 45 : 43) ? 62 : 63))))) >> 2)) : (unsigned char)(((((unsigned int)(((unsigned char)(b64[4 * (g_m / 3) + 2])) >= 65 && ((unsigned char)(b64[4 * (g_m / 3) + 2])) <= 90 ? ((unsigned char)(b64[4 * (g_m / 3) + 2])) - 65 : (((unsigned char)(b64[4 * (g_m / 3) + 2])) >= 97 && ((unsigned char)(b64[4 * (g_m / 3) + 2])) <= 122 ? ((unsigned char)(b64[4 * (g_m / 3) + 2])) - 71 : (((unsigned char)(b64[4 * (g_m / 3) + 2])) >= 48 && ((unsigned char)(b64[4 * (g_m / 3) + 2])) <= 57 ? ((unsigned char)(b64[4 * (g_m / 3) + 2])) + 4 : (((unsigned char)(b64[4 * (g_m / 3) + 2])) == ((is_urlsafe != 0) ? 45 : 43) ? 62 : 63))))) & 3) << 6) | ((unsigned int)(((unsigned char)(b64[4 * (g_m / 3) + 3])) >= 65 && ((unsigned char)(b64[4 * (g_m / 3) + 3])) <= 90 ? ((unsigned char)(b64[4 * (g_m / 3) + 3])) - 65 : (((unsigned char)(b64[4 * (g_m / 3) + 3])) >= 97 && ((unsigned char)(b64[4 * (g_m / 3) + 3])) <= 122 ? ((unsigned char)(b64[4 * (g_m / 3) + 3])) - 71 : (((unsigned char)(b64[4 * (g_m / 3) + 3])) >= 48 && ((unsigned char)(b64[4 * (g_m / 3) + 3])) <= 57 ? ((unsigned char)(b64[4 * (g_m / 3) + 3])) + 4 : (((unsigned char)(b64[4 * (g_m / 3) + 3])) == ((is_urlsafe != 0) ? 45 : 43) ? 62 : 63)))))))))'},
+                  {"id": 1, "dec": "b64_len - b64_pos", "assigns": "b64_pos", "inv": "b64_pos <= b64_len"}],
+                  "_sodium_base642bin_skip_padding": [
+                  {"id": 0, "dec": "b64_len - *b64_pos_p", "assigns": "padding_len,c,*b64_pos_p,v_errno", "inv": "*b64_pos_p <= b64_len"}]}},
+     "functions": ["sodium_base642bin", "b64_char_to_byte", "b64_urlsafe_char_to_byte"], "assumes": ["errno modelled as a plain global"],
+     "what": "sodium_base642bin, strict mode (unpadded variants, no ignore set, no end pointer), EVERY text: success implies alphabet characters only, length != 1 mod 4, bin_len = floor(6 len / 8), zero trailing bits, every byte assembled from its digits per RFC 4648 (constant-time table look-ups proved equal to the alphabets)",
+     "bound": "values: text <= 4096 bytes, capacity <= 4096; every loop iteration covered by the invariant"})
